@@ -104,6 +104,28 @@ Semantics of the translation (rs2lean)
     (returned value and final fields).
   - `a && b` / `a || b` with a right operand that can panic is `(← (if a then (do b) else pure false))`: a parenthesised TERM-level
     `if` (so that Lean does not duplicate the rest of the `do` block into both branches).
+* FEN READER / WRITER (round 4).  `&str` / `String` values are `List Char`: string literals are written out, `==` is list equality,
+  `&s[a..b]` is `strSlice` (BYTE offsets; `none` = out of range or not on a char boundary: a panic), `s.split(c)` / `.enumerate()` /
+  `.chars()` are lists (`strSplit`, `iterEnumerate`), `s.contains(c)`, `s.is_empty()`, `s.parse::<u32>()` is `parseU32` (an `Option`-like
+  value; see the ASSUMPTION there), `n.to_string()` is `uintToString`, `char::from_digit(d, 10)` is `fromDigit10`; a mutable local string
+  is rebound by `s.push(c)` / `s.push_str(&t)` (`s ++ [c]` / `s ++ t`); `c.is_uppercase()` is only modelled on ASCII (`charIsUppercase`:
+  `none` outside).  `it.next()` on a mutable local iterator rebinds it BEFORE the statement (`iterNext`; only as head of a `let` initialiser).
+  `Range<usize>` is the pair `(start, end)`.  `assert!/assert_eq!` are `rsAssert` (`none` = the assertion fails).
+  - `ITER.for_each(|pat| { body })` and `for pat in ITER { body }` over a list / iterator expression are definitions by structural
+    recursion on the list; `pat` may be a tuple of variables.  `ITER.map(F).find(P)` with a translated `F` is the LAZY `iterMapFind`.
+  - `let x = if C { &mut a } else { &mut b };` for two distinct mutable struct locals: `C` is evaluated once, `x` is a copy, and it is
+    written back into `a` / `b` at the end of the block (`a`, `b` must not be used in the rest of that block; no `return` there).
+    `let p = match E { P1 => x.m1_ref(), .., _ => panic!() };` where every arm is a place method of the struct local `x` (or `panic!()`):
+    the INDEX of the place is computed by the `match`; `*p op= e` updates `x.field` at that index (bounds-checked).
+  - a `match` whose patterns are built from `Some(name)` / `Some(_)` / `None` / `_` is a Lean `match` on the `Option` values (same arm order).
+  - `let f = |x| body;` is a local closure: every call `f(arg)` (plain argument) is the body with `x` bound to the argument.
+  - `E?` on a `Result` with the error type of the function (as a `let` initialiser or a statement) is a `match` whose `Err` arm returns.
+  - OPAQUE TYPES (`Square`, `Piece`, `ColoredPiece`, regex `Captures` / `Match`): values are elements of a Lean type variable; the fields /
+    methods / associated functions listed as opaque for the target (`square.mask`, `piece.to_white()`, `captures.get(i)`,
+    `Piece::from_index(i)`, `Self::parse(s)`, `Self::default()`) are FUNCTION (value) parameters `Type_member`; what they are assumed to
+    compute is stated as a hypothesis of the theorems (`Props/Translated/FenFromStr.lean`, `FenWrite.lean`).
+  - a struct literal of a regenerated struct writes the fields in SOURCE order (nested actions run in that order); a constructor
+    (`-> Self` of a flattened struct) whose literal has panicking initialisers binds them first, in source order.
 * Anything else makes rs2lean stop with an error naming file, line, function and construct.  It never guesses.
 -/
 namespace Inkayaku.Rs
@@ -317,5 +339,105 @@ def strLen (s : List Char) : Int := ((s.map Char.utf8Size).sum : Nat)
 
 /-- `iter.sum::<T>()`: `fold(0, |a, b| a + b)` with the overflow check of `T` -/
 def iterSum (t : Ty) (l : List Int) : Option Int := l.foldl (fun acc x => acc.bind fun a => chk t (a + x)) (some 0)
+
+/-- the rest of `s` after its first `n` BYTES (UTF-8); `none` = `n` is beyond the end or inside a char -/
+def strDropBytes : List Char → Nat → Option (List Char)
+  | s, 0 => some s
+  | [], _ + 1 => none
+  | c :: cs, n + 1 => if c.utf8Size ≤ n + 1 then strDropBytes cs (n + 1 - c.utf8Size) else none
+
+/-- the first `n` BYTES (UTF-8) of `s`; `none` = `n` is beyond the end or inside a char -/
+def strTakeBytes : List Char → Nat → Option (List Char)
+  | _, 0 => some []
+  | [], _ + 1 => none
+  | c :: cs, n + 1 => if c.utf8Size ≤ n + 1 then (strTakeBytes cs (n + 1 - c.utf8Size)).map (c :: ·) else none
+
+/-- `&s[a..b]` of a `&str`: BYTE offsets; panics unless `a ≤ b ≤ s.len()` and both lie on char boundaries -/
+def strSlice (s : List Char) (a b : Int) : Option (List Char) :=
+  if 0 ≤ a ∧ a ≤ b then (strDropBytes s a.toNat).bind (fun r => strTakeBytes r (b - a).toNat) else none
+
+/-- `o.map(f)` for an `f` that can panic: `f` only runs on `Some` -/
+def optMapM {α β : Type} (f : α → Option β) : Option α → Option (Option β)
+  | none => some none
+  | some a => (f a).map some
+
+/-- `s.split(sep)` for a `char` pattern, as the list of the pieces (n separators give n + 1 pieces) -/
+def strSplit (sep : Char) : List Char → List (List Char)
+  | [] => [[]]
+  | c :: cs =>
+    if c = sep then [] :: strSplit sep cs
+    else match strSplit sep cs with
+      | [] => [[c]]
+      | p :: ps => (c :: p) :: ps
+
+/-- `iter.enumerate()` continued at index `i` -/
+def iterEnumerateFrom {α : Type} : Int → List α → List (Int × α)
+  | _, [] => []
+  | i, x :: xs => (i, x) :: iterEnumerateFrom (i + 1) xs
+
+/-- `iter.enumerate()` (no overflow check: the index is bounded by the length of the list) -/
+def iterEnumerate {α : Type} (l : List α) : List (Int × α) := iterEnumerateFrom 0 l
+
+/-- `it.next()`: the item (a Rust `Option` VALUE) and the advanced iterator -/
+def iterNext {α : Type} : List α → Option α × List α
+  | [] => (none, [])
+  | x :: xs => (some x, xs)
+
+/-- `s.contains(c)` for a `char` pattern -/
+def strContains (s : List Char) (c : Char) : Bool := s.contains c
+
+/-- `c.is_uppercase()` (Unicode property `Uppercase`).  MAPPING-TABLE RESTRICTION: only ASCII is modelled (`'A'..='Z'`);
+for a non-ASCII char the translation yields `none` (= outside the modelled domain; the theorems assume ASCII input, which
+`FEN_REGEX` guarantees). -/
+def charIsUppercase (c : Char) : Option Bool :=
+  if c.toNat < 128 then some (decide (65 ≤ c.toNat ∧ c.toNat ≤ 90)) else none
+
+/-- `c.to_ascii_lowercase()`: `'A'..='Z'` to lower case, everything else unchanged -/
+def charToAsciiLowercase (c : Char) : Char := if 65 ≤ c.toNat ∧ c.toNat ≤ 90 then Char.ofNat (c.toNat + 32) else c
+
+/-- drops one leading `+` -/
+def stripPlus : List Char → List Char
+  | '+' :: rest => rest
+  | s => s
+
+/-- `s.parse::<u32>()` as a Rust `Option`-like VALUE (`none` = `Err(ParseIntError)`).  MAPPING-TABLE ASSUMPTION
+(`core::num::from_str_radix` for an unsigned type, radix 10): one optional leading `+`, then at least one ASCII digit and
+nothing else, value at most `u32::MAX`. -/
+def parseU32 (s : List Char) : Option Int :=
+  let ds := stripPlus s
+  if ds.isEmpty || !ds.all isAsciiDigit then none
+  else
+    let v : Nat := ds.foldl (fun acc c => 10 * acc + (c.toNat - 48)) 0
+    if v ≤ 4294967295 then some (v : Int) else none
+
+/-- `assert!(b)` / `assert_eq!(a, b)`: `none` = the assertion fails (panic) -/
+def rsAssert (b : Bool) : Option Unit := if b then some () else none
+
+/-- `char::from_digit(d, 10)`: a Rust `Option` VALUE -/
+def fromDigit10 (d : Int) : Option Char := if 0 ≤ d ∧ d < 10 then some (Char.ofNat (48 + d.toNat)) else none
+
+/-- `n.to_string()` of an unsigned integer: decimal digits without sign or padding -/
+def uintToString (n : Int) : List Char := (Nat.repr n.toNat).toList
+
+/-- `r.is_err()` -/
+def resIsErr {ε α : Type} : Except ε α → Bool
+  | .error _ => true
+  | .ok _ => false
+
+/-- `r.unwrap()` of a `Result`: `none` = `Err` (panic) -/
+def resUnwrap {ε α : Type} : Except ε α → Option α
+  | .error _ => none
+  | .ok a => some a
+
+/-- `r.is_ok()` -/
+def resIsOk {ε α : Type} : Except ε α → Bool
+  | .error _ => false
+  | .ok _ => true
+
+/-- `iter.map(f).find(p)` for an `f` that can panic: iterator adaptors are LAZY, `f` runs on the items in order until the
+first result satisfying `p` (later items are not evaluated); `none` = `f` panicked on an item that was reached -/
+def iterMapFind {α β : Type} (f : α → Option β) (p : β → Bool) : List α → Option (Option β)
+  | [] => some none
+  | x :: xs => (f x).bind (fun y => if p y then some (some y) else iterMapFind f p xs)
 
 end Inkayaku.Rs
